@@ -167,9 +167,11 @@ class Task:
             self.execute()
             self.finish()
         except OSError:
+            # socket errors while writing are handled inside the channel and
+            # never get here; this is an error of the application itself, to
+            # be answered like any other (500, or close once output started)
             self.close_on_finish = True
-            if self.channel.adj.log_socket_errors:
-                raise
+            raise
 
     @property
     def has_body(self):
